@@ -271,9 +271,9 @@ def main(tier, rep):
     stride = 25 if tier == "quick" else 3
     traces = []
     nbig = 0
+    rnd.shuffle(grid)            # a strided walk over the sorted grid would alias with its fastest-varying dimensions
+    grid = grid[: len(grid) // stride]
     for n, g in enumerate(grid):
-        if (n + common.seed()) % stride:
-            continue
         if g["v"] == "big":
             nbig += 1
             if nbig % (6 if tier == "quick" else 2):
